@@ -16,4 +16,10 @@ def DepOk : List FieldSem → List FieldSem → Prop
   | pre, f :: rest =>
     (f.emitted = true → ∀ b b', AgreeOn pre b b' → f.loc b' = f.loc b) ∧ DepOk (pre ++ [f]) rest
 
+/-- `d` is a dependency of `f`, directly or through other fields (virtual fields included:
+a physical field located through `let off = n * 2` depends on `n`). -/
+inductive DependsOn (deps : Nat → List Nat) : Nat → Nat → Prop
+  | direct {f d : Nat} : d ∈ deps f → DependsOn deps f d
+  | step {f m d : Nat} : m ∈ deps f → DependsOn deps m d → DependsOn deps f d
+
 end Emboss.Text
